@@ -7,7 +7,7 @@ heap run <sys> <spec> <pre> <td> <events>
 sys   = <var>;<var>;…          var  = <entity>:<unit>[~<type>][!]:<default>:<formula>
                                (~type: value type of the real variable, ignored by the model; ! = in cache_blacklist)
                                formula = - | <const>{+<coef>*<dep>.<via>.<pt>}   pt = s|l
-                               via = s | m | p | mr<role> | nb<role> | hr<g>_<role> | pa      role = <flat>{_<flat>}
+                               via = s | m | p | mr<role> | nb<role> | hr<g>_<role> | pa | nt<k>      role = <flat>{_<flat>}
                                (role-filtered sum of the members, nb_persons(role), has_role(role of entity g), the
                                 parameter p0; a role is the set of flattened roles satisfying it: 0_1 | 0 | 1 | 2 | 3)
 spec  = <persons>/<groups>/<mem>/<cfg>
@@ -71,6 +71,7 @@ def parseVia? (via : String) : Option Via :=
       pure (Via.hasRole g r)
     | [] => none
   else if via = "pa" then some Via.param
+  else if via.startsWith "nt" then ((via.drop 2).toString.toNat?).map Via.nth
   else none
 
 def parseTerm? (s : String) : Option Term :=
@@ -98,7 +99,10 @@ def parseVar? (s : String) : Option VarDecl :=
   | [e, u, d, f] => do
     let bl := u.endsWith "!"
     let u := if bl then (u.dropEnd 1).toString else u
-    let u := (u.splitOn "~").headD ""
+    let u ← (match u.splitOn "~" with
+      | [u] => some u
+      | [u, t] => if ["f", "i", "b", "e", "s", "d"].contains t then some u else none
+      | _ => none)
     pure { entity := ← e.toNat?, defPeriod := ← DUnit.ofName u, dflt := ← d.toInt?, formula := ← parseFormula? f,
            blacklisted := bl }
   | _ => none
@@ -194,7 +198,6 @@ def showPopObs (o : PopObs) : String :=
     ++ ".".intercalate (o.membersEntityId.map toString)
     ++ (if o.entity = 0 then "" else
         ":r" ++ ".".intercalate (o.roles.map toString) ++ ":p" ++ ".".intercalate (o.positions.map toString)
-        ++ ":m" ++ ".".intercalate (o.orderedMap.map toString)
         ++ ":c" ++ "/".intercalate (o.roleCounts.map showVec))
     ++ ":[" ++ " ".intercalate hs ++ "]"
 
@@ -303,6 +306,8 @@ def runEvents (sys : Sys) : List (Nat × Event) → Heap → List Id → List St
         match sims[src]? with
         | none => ["BAD"]
         | some y =>
+          -- `source.get_array(w, q)` is itself a call on the source: it makes the holder
+          let h := (step sys fuelDefault y (.touch w) h).2
           match (readValue sys y w q h).1 with
           | .ok (some a) =>
             let (r, h1) := step sys fuelDefault x (.setInput v p a) h
@@ -330,6 +335,7 @@ def wellFormed (sys : Sys) (spec : SimSpec) : Bool :=
           | .hasRole g _ => ks.contains g && d.entity = 0
           | .membersRole _ => d.entity ≠ 0
           | .nbPersons _ => d.entity ≠ 0
+          | .nth _ => d.entity ≠ 0
           | .same => true | .members => true | .project => true | .param => true)))
 
 def handleHeap (args : List String) : String :=
